@@ -6,10 +6,10 @@
    builds the same model object; buffered CFB = the CFB recurrence = block-level CFB (C14_buffered_vs_block_cfb);
    on whole blocks the six stealing variants, both directions, are plain CBC / raw block encryption
    with the CS3 exchange of the last two blocks (C14_cts_whole_blocks_enc, _dec).  One-shot CFB = buffered CFB
-   (C14_oneshot_vs_buffered_cfb), hence = block CFB.  Not proved yet (covered by correspondence and the
-   implementation-side predicates of gen/props/c14.py only): the OFB byte-level wrapper vs the block encryptor. *)
+   (C14_oneshot_vs_buffered_cfb), hence = block CFB.  The OFB core block-wise (= the byte-level Ofb wrapper on whole
+   blocks, C14_ofb_wrapper_vs_core) writes what the OFB block encryptor / decryptor writes (C14_ofb_core_vs_block_mode). *)
 From BM Require Import BlockModes Spec BlockModes_proofs Plumbing Toy Ints Ctr Belt Stream Cts Cts_mem Cts_spec Cts_cs_proofs Cts_dec_proofs Stream_proofs Cts_proofs
-  Interp Interp_proofs Wrapper_proofs Wrapper_inst Outcome Buf_proofs Async_proofs.
+  Interp Interp_proofs Wrapper_proofs Wrapper_inst Outcome Buf_proofs Async_proofs OfbFront_proofs.
 
 (* OFB: three of the four front-ends at block level *)
 Theorem C14_ofb_frontends : forall (C : cipher) iv c,
@@ -36,6 +36,19 @@ Proof.
   all: try assumption.
 Qed.
 Print Assumptions C14_ofb_wrapper_vs_core.
+
+(* ... and that is the block-mode encryptor's (= decryptor's) output from the corresponding chaining value *)
+Theorem C14_ofb_core_vs_block_mode : forall (C : cipher) iv, cipher_wf C -> length iv = c_bs C ->
+  forall nb (blocks : list block) sched, sched_total sched = length blocks ->
+  outs_of (snd (apply_ks_blocks (kscore C SOfb) (ofb_at C iv nb) (cells_ip blocks))) =
+  concat (map cout (snd (run_sched (ofb_enc_block C) ofb_w (ofb_enc_par C) (iter_E (c_E C) (N.to_nat nb) iv) sched (cells_ip blocks)))).
+Proof.
+  intros C iv Hw Hiv nb blocks sched Hs. rewrite (ofb_core_vs_block_enc C iv Hw Hiv).
+  rewrite ofb_enc_sched by (unfold cells_ip; now rewrite map_length). cbn [snd].
+  rewrite map_rd_in_ip. f_equal. symmetry. apply Cts_mem.map_cout_wr.
+  unfold cells_ip. now rewrite map_length, RoundTrip_proofs.ofb_spec_length.
+Qed.
+Print Assumptions C14_ofb_core_vs_block_mode.
 
 (* CTR (every flavour): CtrCore driven block-wise = byte-level wrapper on whole blocks *)
 Theorem C14_ctr_core_vs_wrapper : forall cs be (C : cipher) (nonce : list N), cipher_wf C -> c_bs C = cs * length nonce ->
